@@ -168,6 +168,46 @@ DESC = {
     "C19-H": "(round 5, off-anchor) bidi table built from ranges, one of them one short: U+2069 is not reported",
     "C20-G": "(round 5) `global repo` dropped with the pre-initialisations: the cleanup never resets HEAD",
     "C20-H": "(round 5, off-anchor) untracked files listed with `--directory`: files of a wholly untracked directory are overwritten",
+    "C01-I": "(round 6) same as C01-G, found again independently: import findings on the alias's line",
+    "C01-J": "(round 6, off-anchor) same as C01-H: def/class pops the import alias of its name",
+    "C02-I": "(round 6) `_parse_nosec_comment` memoised + `get_nosec` unions in place: comment sets shared between lines, files and runs",
+    "C02-J": "(round 6, off-anchor) `aggregate` skips keys starting with `_`: nosec/skipped totals of `_vendored/` are lost",
+    "C03-I": "(round 6) long threshold options reset the other threshold to its default: `-lll --confidence-level high` forgets `-lll`",
+    "C03-J": "(round 6, off-anchor) SARIF keeps one result per (test, file, line)",
+    "C04-I": "(round 6) `-` renamed to `<stdin>` before the loop: an I/O error on stdin makes the handler's `remove('-')` raise ValueError",
+    "C04-J": "(round 6, off-anchor) recursion limit widened per file without `finally`: a failed visit lets later deep files through",
+    "C05-I": "(round 6, off-anchor data) a B412 import rule added under B411's prefix: full run and `-t B412` disagree on that line",
+    "C05-J": "(round 6, off-anchor) `config.setdefault(key, [])` in B602-B607 completes a partial shared block that B609 tests for",
+    "C06-I": "(round 6) B704 `allowed_calls` accepts concatenations; a Name operand reaches `get_call_name` and raises",
+    "C06-J": "(round 6, off-anchor) `get_called_name` loses its AttributeError guard: B608 raises for conditional/lambda callees",
+    "C07-I": "(round 6) `populate_baseline` also loads each result's `candidates`: chained baselines over-count",
+    "C07-J": "(round 6, off-anchor) `get_issue_list` memoised on thresholds and result count: a baseline loaded later is ignored",
+    "C08-I": "(round 6) B704's extended names merged into a module global once: the first scanner's config leaks into later ones",
+    "C08-J": "(round 6, off-anchor) same as C08-H: blacklist names looked up live in the registry `get_url` rewrites",
+    "C09-I": "(round 6) HTML candidate excerpts lose `html_escape` (baseline branch, two or more candidates)",
+    "C09-J": "(round 6, off-anchor) a new B113 finding without `cwe=`: the CSV formatter dies on `['link']`",
+    "C10-I": "(round 6) parent line ranges memoised by start position: nested expressions starting at one place share a range",
+    "C10-J": "(round 6, off-anchor) linecache primed from `str.splitlines()`: excerpt rows below a form feed are misnumbered",
+    "C11-I": "(round 6) a target is skipped when its name starts with an already walked one (`pkg pkg_tests`)",
+    "C11-J": "(round 6, off-anchor) `_log_option_source` treats an empty `-x ''` as absent: the ini file's exclude wins",
+    "C12-I": "(round 6) same as C12-G: totals skip files whose key starts with `_`",
+    "C12-J": "(round 6, off-anchor) results committed in a `finally`: findings of a file whose visit aborted are reported but not counted",
+    "C13-I": "(round 6) CLI/INI selection removes the other side's ids before the union: split contradictions scan silently",
+    "C13-J": "(round 6, off-anchor) unknown ids dropped from config-file lists only: `tests: [B1O1]` runs everything",
+    "C14-I": "(round 6) a literal command holding backticks or `$(` is graded MEDIUM, which the callers treat as not-LOW",
+    "C14-J": "(round 6, off-anchor) `_get_literal_value` negates operands of unary minus: `bufsize=-n` raises in `call_keywords`",
+    "C15-I": "(round 6) B324 returns early unless an import of hashlib/crypt was visited before the call",
+    "C15-J": "(round 6, off-anchor) same alias pop as C01-H seen through from-imported crypto functions",
+    "C16-I": "(round 6) B108 exempts every `dir=` keyword, whatever the callee",
+    "C16-J": "(round 6, off-anchor) same alias pop seen through `from os import chmod as set_mode`",
+    "C17-I": "(round 6) B101 normalises the file name before matching the skips globs",
+    "C17-J": "(round 6, off-anchor) `_check_string` searches only the first 2048 characters of the literal",
+    "C18-I": "(round 6) name-to-id index built lazily from registry entries that `get_url` has rewritten",
+    "C18-J": "(round 6, off-anchor) HTML formatter caches documentation links by test *name* (all blacklist findings share one)",
+    "C19-I": "(round 6) B613 returns early unless the UTF-8 bytes of a bidi character occur in the raw file bytes (legacy encodings)",
+    "C19-J": "(round 6, off-anchor) files with zero lines of code are not visited: bidi characters in comment-only files, undecodable files not skipped",
+    "C20-I": "(round 6) dirtiness tested with `head.commit.diff(None)`: a staged change whose working copy equals HEAD passes",
+    "C20-J": "(round 6, off-anchor) parent-only files found with `git diff --diff-filter=D`: renamed files are missed",
 }
 
 
